@@ -370,9 +370,10 @@ def main(argv: Optional[List[str]] = None) -> int:
                 plan, dev = v["plan"], v["deviations"]
         else:
             digest, viol, flog = v["digest"], v["violation"], v.get("fired_log")
-        os.makedirs(os.path.join(VERIF, "replays"), exist_ok=True)
+        rdir = os.environ.get("DSIM_REPLAY_DIR") or os.path.join(VERIF, "replays")
+        os.makedirs(rdir, exist_ok=True)
         name = f"{prop}-{args.seed}-{v['idx']}-{hashlib.sha1(sig.encode()).hexdigest()[:8]}.json"
-        path = os.path.join(VERIF, "replays", name)
+        path = os.path.join(rdir, name)
         json.dump({"property": prop, "signature": sig, "clause": viol["clause"], "message": viol["msg"],
                    "seed": args.seed, "idx": v["idx"], "run_seed": v["run_seed"], "plan": plan,
                    "deviations": dev, "fired_faults": flog, "digest": digest, "pythonhashseed": "0",
